@@ -42,7 +42,7 @@ func init() {
 		"pipeline: one TO2 with scripted owner/device modules under all 27 permutations of {none, short, long} delay at "+
 		"producer, consumer and transport, small MTUs; outcome and delivered messages equal the undelayed run. "+
 		"Model tie: the per-device request/response trace is replayed through the Lean server model session by session "+
-		"(interleaving-independent prediction); distinct = (backend, N, GOMAXPROCS, delays) and pipeline permutations", c19)
+		"(interleaving-independent prediction); every other SQLite world with the store's statement log on; distinct = (backend, N, GOMAXPROCS, delays) and pipeline permutations", c19)
 }
 
 type c19Plan struct {
